@@ -1,9 +1,129 @@
-import Gzx.Util
+import Gzx.Driver.QRTables
+import Gzx.Model.QRRS
 namespace Gzx.Driver.C01
-open Gzx
+open Gzx Gzx.QRDec Gzx.ECI
 
-/-- line-protocol handler of suite `c01` (arguments after the suite name) -/
+/-! line protocol of suite `c01` (QR decoder layers); also used by `c05` and `c15` -/
+
+def parseHint (s : String) : Option Hint :=
+  if s == "-" then some .none
+  else if s.startsWith "o:" then some (.object (s.drop 2).toString)
+  else if s.startsWith "n0:" then some (.name (s.drop 3).toString 0)
+  else if s.startsWith "n1:" then some (.name (s.drop 3).toString 1)
+  else if s.startsWith "n2:" then some (.name (s.drop 3).toString 2)
+  else none
+
+def parseEC (s : String) : Option EC :=
+  if s == "L" then some .L else if s == "M" then some .M else if s == "Q" then some .Q
+  else if s == "H" then some .H else none
+
+def showSeg : Seg → String
+  | .raw bs => "R|" ++ showHex bs
+  | .text cs bs => "T|" ++ cs.show ++ "|" ++ showHex bs
+
+def showList (f : α → String) (xs : List α) : String :=
+  if xs.isEmpty then "-" else ";".intercalate (xs.map f)
+
+def showParsed (p : Parsed) : String :=
+  s!"segs={showList showSeg p.segs} bs={showList showHex p.byteSegs} sa={p.saSeq},{p.saPar} sm={p.symMod}"
+
+def showErr : Fault → String
+  | .panic _ => "PANIC"
+  | e => "ERR:" ++ e.tag
+
+/-- sequential ReadBits calls; a failed call leaves the source untouched -/
+def bsRun : List Nat → List Bool → List String → List String × Nat
+  | [], bits, acc => (acc.reverse, bits.length)
+  | n :: ns, bits, acc =>
+    match readBits n bits with
+    | .ok (v, bits') => bsRun ns bits' (toString v :: acc)
+    | .error _ => bsRun ns bits ("E" :: acc)
+
+def matrixOfBits (dim : Nat) (s : String) : Option Matrix :=
+  let arr := (parseBits s).toArray
+  if arr.size = dim * dim then some { dim := dim, bit := fun x y => arr.getD (y * dim + x) false } else none
+
+def T : Tables := QRTables.tables
+
+def rs : List Nat → Nat → Res (List Nat) := QRRS.decode
+
 def handle : List String → String
+  | ["bs", hex, ns] =>
+    match parseHex? hex, parseNatList? ns with
+    | some bs, some ns =>
+      let (outs, avail) := bsRun ns (bytesToBits bs) []
+      ",".intercalate outs ++ "|" ++ toString avail
+    | _, _ => "bad-op"
+  | ["parse", hex, ver, hint] =>
+    match parseHex? hex, argNat [ver] "v", (argOf [hint] "hint").bind parseHint with
+    | some bs, some v, some h =>
+      match parse T.eci bs v h with
+      | .ok p => "ok " ++ showParsed p
+      | .error e => showErr e
+    | _, _, _ => "bad-op"
+  | ["fmt", a, b] =>
+    match parseNat? a, parseNat? b with
+    | some a, some b =>
+      match decodeFormat T.fmt T.fmtMask a b with
+      | .ok (some (ec, m)) => s!"ok {ec.name} {m}"
+      | .ok none => "none"
+      | .error e => showErr e
+    | _, _ => "bad-op"
+  | ["ver", a] =>
+    match parseNat? a with
+    | some a =>
+      match decodeVersionInformation T a with
+      | .ok v => s!"ok {v.num}"
+      | .error (.panic _) => "PANIC"
+      | .error _ => "ERR"
+    | _ => "bad-op"
+  | ["deint", hex, ver, ec] =>
+    match parseHex? hex, argNat [ver] "v", (argOf [ec] "ec").bind parseEC with
+    | some raw, some v, some ec =>
+      match getVersionForNumber T.versions v with
+      | .ok vi =>
+        match getDataBlocks raw vi ec with
+        | .ok bs => "ok " ++ showList (fun b => s!"{b.1}:{showHex b.2}") bs
+        | .error e => showErr e
+      | .error e => showErr e
+    | _, _, _ => "bad-op"
+  | ["cw", dim, bits, mir] =>
+    match parseNat? dim, argNat [mir] "mirror" with
+    | some dim, some mir =>
+      match matrixOfBits dim bits with
+      | none => "bad-op"
+      | some m =>
+        match newParser m with
+        | .error e => showErr e
+        | .ok p =>
+          let r : Res String := do
+            let p := if mir = 1 then setMirror p true else p
+            let (v, p) ← readVersion T p
+            let (fi, p) ← readFormatInformation T p
+            let p := if mir = 1 then { p with m := mirrorMatrix p.m } else p
+            let cws ← (readCodewords T p).1
+            pure s!"ok fmt={fi.1.name},{fi.2} ver={v.num} cw={showHex cws}"
+          match r with
+          | .ok s => s
+          | .error e => showErr e
+    | _, _ => "bad-op"
+  | ["decode", dim, bits, hint] =>
+    match parseNat? dim, (argOf [hint] "hint").bind parseHint with
+    | some dim, some h =>
+      match matrixOfBits dim bits with
+      | none => "bad-op"
+      | some m =>
+        match decode T rs h m with
+        | .ok d => s!"ok ec={d.ec.name} mir={if d.mirrored then 1 else 0} data={showHex d.data} {showParsed d.parsed}"
+        | .error e => showErr e
+    | _, _ => "bad-op"
+  | ["rs", hex, n] =>
+    match parseHex? hex, parseNat? n with
+    | some w, some n =>
+      match rs w n with
+      | .ok w => "ok " ++ showHex w
+      | .error e => showErr e
+    | _, _ => "bad-op"
   | _ => "bad-op"
 
 end Gzx.Driver.C01
